@@ -89,17 +89,22 @@ ALLOWED_SITES = {
         "wallParams.widths == self.wallThicknessBounds[1] / self.thermo.Tnucl",
         "np.any(wallParams.offsets == self.wallOffsetBounds[1])",
         "wallParams.offsets == self.wallOffsetBounds[1]"},
-    # counts, not field values
-    ("manager.py", "setupThermodynamicsHydrodynamics"): {
-        "phaseInfo.phaseLocation1.numFields() == self.model.fieldCount",
-        "phaseInfo.phaseLocation2.numFields() == self.model.fieldCount"},
-    ("effectivePotential.py", "configureDerivatives"): {
-        "self.derivativeSettings.fieldValueVariationScale.size == self.fieldCount"},
-    ("effectivePotential.py", "findLocalMinimum"): {
-        "max(T.shape[0], initialGuess.numPoints())"},
-    # symmetric in the fields (all components compared)
+    # symmetric in the fields (all components compared); comparison of the two potential
+    # VALUES returned next to the minima
     ("manager.py", "validatePhaseInput"): {
-        "np.allclose(phaseLocation1, phaseLocation2, rtol=1e-05, atol=1e-05)"},
+        "np.allclose(phaseLocation1, phaseLocation2, rtol=1e-05, atol=1e-05)",
+        "np.real(effPotValue1) < np.real(effPotValue2)"},
+    # element 0 of the (location, value) pair returned by findLocalMinimum; absolute tolerance
+    # of the tracing = rTol * max(|phase0|_inf, T0): depends on where the origin is, but only
+    # as a tolerance (translations are covariant within it); flips along the TEMPERATURE axis
+    ("freeEnergy.py", "tracePhase"): {
+        "phase0Temp[0]", "max(*abs(phase0), T0)", "abs(phase0)", "phaset[0]",
+        "np.flip(fieldList, axis=0)", "np.flip(potentialEffList, axis=0)"},
+    # component 0 of wallProfile's (fields, dPhidz) (checked by gen_action)
+    ("equationOfMotion.py", "action"): {
+        "self.wallProfile(self.grid.xiValues, vevLowT, vevHighT, wallParams)[0]"},
+    # unwrapping of the scalar result (checked by gen_temperatureLHS)
+    ("equationOfMotion.py", "temperatureProfileEqLHS"): {"result[0]"},
     # NOT reflection covariant (d(phi0+phi1) vs d(phi0-phi1)); feeds only the diagnostic
     # linearizationCriterion1/2 of the out-of-equilibrium solution, none of the outputs of
     # C08; reported as an observation
@@ -108,27 +113,55 @@ ALLOWED_SITES = {
 }
 
 
+ROOTS = {"np", "numpy", "scipy", "math"}
+NEUTRAL_ATTR = {"shape", "size", "ndim", "dtype"}            # counts, not field values
+NEUTRAL_CALL = {"len", "numFields", "numPoints", "isinstance", "type", "range"}
+SOURCE_ATTR = {"fieldsAtMinimum"}
+SOURCE_CALL = {"findLocalMinimum", "wallProfile", "getFieldPoint", "getField",
+               "castFromNumpy", "resizeFields"}
+TAINT = "<field data>"
+BUILTIN_OK = {"float", "int", "len", "abs", "max", "min", "sum", "range", "print", "tuple",
+              "list", "enumerate", "zip", "str", "repr", "sorted", "isinstance", "type", "bool",
+              "complex", "round", "iter", "next", "dict", "set", "super", "getattr", "hasattr",
+              "reversed", "map", "filter", "any", "all", "id", "callable", "divmod", "pow"}
+
+
+def _root(f):
+    while isinstance(f, ast.Attribute):
+        f = f.value
+    return f.id if isinstance(f, ast.Name) else None
+
+
 def _direct_names(node):
-    """names and attribute names used in `node` other than inside the arguments of a call
-    to a collaborator (particle.*, effectivePotential.*: their field dependence is
-    external)"""
+    """names and attribute names whose VALUES reach `node`: everything except what sits
+    inside the arguments of a call to a collaborator (particle.*, effectivePotential.*:
+    their field dependence is external) or under a count (.shape, len(), numFields())"""
     out = set()
     if isinstance(node, ast.Name):
         out.add(node.id)
     elif isinstance(node, ast.Attribute):
+        if node.attr in NEUTRAL_ATTR:
+            return out
         out.add(node.attr)
         out |= _direct_names(node.value)
     elif isinstance(node, ast.Call):
         f = node.func
-        own = isinstance(f, ast.Name) or (
-            isinstance(f, ast.Attribute) and isinstance(f.value, ast.Name) and
-            f.value.id in NP) or (isinstance(f, ast.Attribute) and
-                                  f.attr in ("view", "copy", "ravel", "flatten", "astype"))
+        nm = f.attr if isinstance(f, ast.Attribute) else (
+            f.id if isinstance(f, ast.Name) else None)
+        if nm in NEUTRAL_CALL:
+            return out
+        if nm in SOURCE_CALL:
+            out.add(TAINT)
+        own = isinstance(f, ast.Name) or _root(f) in ROOTS or (
+            isinstance(f, ast.Attribute) and f.attr in ("view", "copy", "ravel", "flatten",
+                                                        "astype", "tolist"))
         if own:
             for a in list(node.args) + [k.value for k in node.keywords]:
                 out |= _direct_names(a)
         if isinstance(f, ast.Attribute):
             out |= _direct_names(f.value)
+    elif isinstance(node, ast.Lambda):
+        out |= _direct_names(node.body)
     else:
         for c in ast.iter_child_nodes(node):
             out |= _direct_names(c)
@@ -155,18 +188,108 @@ def _sites(fn):
                 yield n, n.value
 
 
+def _tainted(fn, extra=()):
+    """one-function data flow: names that (may) hold field-axis data.  Seeds: FIELD_DATA,
+    parameters annotated Fields/FieldPoint, parameters a caller passes field data to
+    (`extra`), results of findLocalMinimum / wallProfile / getFieldPoint / .fieldsAtMinimum.
+    Propagated through assignments, loop targets and into the parameters of local closures
+    handed to numpy/scipy together with field data (ODE right-hand sides, objectives)."""
+    t = set(FIELD_DATA) | {TAINT} | SOURCE_ATTR | set(extra)
+    nested = {n.name: n for n in ast.walk(fn) if isinstance(n, ast.FunctionDef) and n is not fn}
+    for f in [fn] + list(nested.values()):
+        for a in f.args.args + f.args.kwonlyargs:
+            if a.annotation is not None and any(k in ast.unparse(a.annotation)
+                                                for k in ("Fields", "FieldPoint")):
+                t.add(a.arg)
+    for _ in range(8):
+        old = len(t)
+        for n in ast.walk(fn):
+            tg, val = [], None
+            if isinstance(n, ast.Assign):
+                tg, val = n.targets, n.value
+            elif isinstance(n, (ast.AugAssign, ast.AnnAssign)) and n.value is not None:
+                tg, val = [n.target], n.value
+            elif isinstance(n, ast.For):
+                tg, val = [n.target], n.iter
+            elif isinstance(n, ast.NamedExpr):
+                tg, val = [n.target], n.value
+            if val is not None and _direct_names(val) & t:
+                for x in tg:
+                    for e in ast.walk(x):
+                        if isinstance(e, ast.Name) and isinstance(e.ctx, ast.Store):
+                            t.add(e.id)
+            if isinstance(n, ast.Call) and _root(n.func) in ROOTS:
+                args = list(n.args) + [k.value for k in n.keywords]
+                if any(_direct_names(a) & t for a in args):
+                    for a in args:
+                        if isinstance(a, ast.Name) and a.id in nested:
+                            for q in nested[a.id].args.args:
+                                t.add(q.arg)
+        if len(t) == old:
+            break
+    return t
+
+
+def _harmless(fn):
+    """ids of nodes inside logging / warnings calls and f-strings"""
+    s = set()
+    for n in ast.walk(fn):
+        if isinstance(n, ast.JoinedStr) or (isinstance(n, ast.Call) and
+                                            _root(n.func) in ("logging", "logger",
+                                                              "warnings")):
+            for m in ast.walk(n):
+                s.add(id(m))
+    return s
+
+
 def unmodelled_sites(sources, translated_file="equationOfMotion.py"):
-    """sites anywhere in the scanned modules that select or mix entries of field-axis data
-    and are neither part of the generated model nor in the reviewed allow-list"""
+    """sites anywhere in the scanned modules that select, compare or mix entries of
+    field-axis data (found by a per-function data flow, see _tainted; module-level helpers
+    are entered with the parameters that receive field data) and are neither part of the
+    generated model nor in the reviewed allow-list"""
     bad = []
     for fname, src in sources.items():
         tree = ast.parse(src)
-        for fn in ast.walk(tree):
-            if not isinstance(fn, ast.FunctionDef):
-                continue
+        tops = [(n, None) for n in tree.body if isinstance(n, ast.FunctionDef)]
+        for c in tree.body:
+            if isinstance(c, ast.ClassDef):
+                tops += [(n, c.name) for n in c.body if isinstance(n, ast.FunctionDef)]
+        helpers = {n.name: n for n, c in tops if c is None}
+        extra = {k: set() for k in helpers}
+        taints = {}
+        for rnd in range(2):
+            for fn, _ in tops:
+                t = _tainted(fn, extra.get(fn.name, ()) if _ is None else ())
+                taints[id(fn)] = t
+                for n in ast.walk(fn):
+                    if isinstance(n, ast.Call) and isinstance(n.func, ast.Name) and \
+                            n.func.id in helpers:
+                        ps = [a.arg for a in helpers[n.func.id].args.args]
+                        for k, a in enumerate(n.args):
+                            if k < len(ps) and _direct_names(a) & t:
+                                extra[n.func.id].add(ps[k])
+        for fn, _ in tops:
+            t = taints[id(fn)]
+            skip = _harmless(fn)
             allowed = ALLOWED_SITES.get((fname, fn.name), set())
+            local = {n.name for n in ast.walk(fn) if isinstance(n, ast.FunctionDef)}
+            # field data handed to a plain function that this scan cannot enter
+            for n in ast.walk(fn):
+                if isinstance(n, ast.Call) and isinstance(n.func, ast.Name) and \
+                        id(n) not in skip and n.func.id not in helpers and \
+                        n.func.id not in local and n.func.id not in BUILTIN_OK and \
+                        not n.func.id[:1].isupper() and \
+                        any(_direct_names(a) & t for a in n.args) and \
+                        ast.unparse(n) not in allowed:
+                    bad.append("%s:%s line %d: field data handed to %s(), which is not "
+                               "scanned" % (fname, fn.name, n.lineno, n.func.id))
             for n, probe in _sites(fn):
-                if not (_direct_names(probe) & FIELD_DATA):
+                if id(n) in skip:
+                    continue
+                if isinstance(n, ast.Compare) and all(isinstance(o, (ast.Is, ast.IsNot))
+                                                      for o in n.ops):
+                    continue
+                if not (_direct_names(probe) & t):
                     continue
                 if fname == translated_file and (n.lineno, n.col_offset) in VISITED:
                     continue
@@ -371,6 +494,7 @@ class Vec:
                        broadcast(a.dims, b.dims, ast.unparse(node)[:60]))
         if isinstance(f, ast.Name) and f.id in ("max", "min") and len(node.args) == 2 \
                 and not node.keywords:
+            VISITED.add((node.lineno, node.col_offset))
             a, b = self.expr(node.args[0], at), self.expr(node.args[1], at)
             if a.dims or b.dims:
                 raise TranslateError("builtin %s of arrays (line %d)" % (f.id, node.lineno))
@@ -686,9 +810,15 @@ def gen_packing(fns, spans):
     if not (isinstance(m, ast.Constant) and m.value == "Nelder-Mead"):
         raise TranslateError("scipy.optimize.minimize is not called with method="
                              "\"Nelder-Mead\" (got %s)" % (ast.unparse(m) if m else None))
+    # tol= / options= (initial_simplex, maxiter, xatol ...) change what the minimiser returns
+    # and are not part of the model: any of them breaks the tie until reviewed
     for k in kw:
-        if k not in ("args", "method", "bounds", "tol", "options"):
-            raise TranslateError("unexpected keyword %s of scipy.optimize.minimize" % k)
+        if k not in ("args", "method", "bounds"):
+            raise TranslateError("keyword %s of scipy.optimize.minimize is not part of the "
+                                 "model (default bounded Nelder-Mead run is assumed)" % k)
+    if len(call.args) != 2:
+        raise TranslateError("scipy.optimize.minimize(fun, x0, ...) with further positional "
+                             "arguments")
     # what is done with the minimiser's answer: only sol.x, unpacked by _toWallParams
     asg = [st for st in fn.body if isinstance(st, ast.Assign) and st.value is call and
            len(st.targets) == 1 and isinstance(st.targets[0], ast.Name)]
